@@ -3,6 +3,7 @@ package main
 import (
 	"fmt"
 	"go/types"
+	"regexp"
 	"sort"
 	"strings"
 
@@ -25,6 +26,7 @@ func runC03(c *Ctx, r *Report) {
 	c01R5(c, r, "C03.R6")
 	c01R3(c, r, "C03.R7")
 	c03Wrappers(c, r, "C03.R10")
+	c03Write(c, r, "C03.R11")
 	c09R7(c, r, "C03.R9") // UDP downstream: a datagram that exactly fills the read buffer must not produce a spurious end of stream
 	c01R4(c, r, "C03.R8") // what was prefetched for matching is what the relay later replays: prefetch appends exactly what it read
 }
@@ -131,6 +133,9 @@ func c03ProxyCheck(c *Ctx, r *Report, fn *ssa.Function, fnName string, paths []P
 			case e.Kind == "call" && e.What == "(*sync.WaitGroup).Add":
 				adds++
 				pendingAdd++
+				if len(e.Args) == 2 && e.Args[1] != "1" {
+					p3 = append(p3, "a copy-back goroutine is counted with wg.Add("+e.Args[1]+"): Wait returns before the copies end, or never")
+				}
 			case e.Kind == "go":
 				goIdx = append(goIdx, i)
 				if strings.Contains(e.What, "proxy$1") {
@@ -232,6 +237,8 @@ func c03ProxyCheck(c *Ctx, r *Report, fn *ssa.Function, fnName string, paths []P
 }
 
 // c03Dial evaluates dialPeers; with headers=true the PROXY header obligations (C12) are reported instead.
+var dialAddrRe = regexp.MustCompile(`^resolved\(hostport\(peers\[(\d)\]\.address,(\d+)\)\)$`)
+
 func c03Dial(c *Ctx, r *Report, rule string, headers bool) {
 	if !headers {
 		r.rule(rule, "dialPeers for 2 peers over every outcome of dial / header write and proxy_protocol none/v1/v2, plain and TLS: success returns exactly the dialed connections in order; failure returns nil and an error with every connection dialed so far closed and the failure counted on the peer", 4)
@@ -265,6 +272,10 @@ func c03Dial(c *Ctx, r *Report, rule string, headers bool) {
 					return symRef("GetConn("+args[0].Desc+")", false), true
 				case callee == "modules/l4proxy.(*Handler).countFailure":
 					return symOpaque("counted"), true // its own pairing is decided by C11.R1
+				case strings.HasSuffix(callee, ".JoinHostPort") && len(args) == 2:
+					return SV{K: "str", Desc: "hostport(" + args[0].Desc + "," + args[1].Desc + ")"}, true
+				case strings.HasSuffix(callee, ".ReplaceAll") && len(args) == 3:
+					return SV{K: "str", Desc: "resolved(" + args[1].Desc + ")"}, true
 				case strings.HasPrefix(callee, "go.uber.org/zap"), strings.HasPrefix(callee, "(*go.uber.org/zap"), strings.HasSuffix(callee, ".JoinHostPort"), strings.HasSuffix(callee, ".ReplaceAll"), strings.HasPrefix(callee, "invoke net.Conn.RemoteAddr"), strings.HasPrefix(callee, "invoke net.Addr.String"):
 					return symOpaque(shortCallee(callee)), true
 				}
@@ -314,8 +325,16 @@ func c03Dial(c *Ctx, r *Report, rule string, headers bool) {
 						continue
 					}
 					switch {
-					case (e.What == "net.Dial" || e.What == "crypto/tls.Dial") && strings.HasPrefix(e.Note, "ok:"):
-						dialed = append(dialed, strings.TrimPrefix(e.Note, "ok:"))
+					case e.What == "net.Dial" || e.What == "crypto/tls.Dial":
+						// the address dialled: the placeholder-resolved host:port of this peer, port offset 0
+						if !headers && len(e.Args) >= 2 {
+							if m := dialAddrRe.FindStringSubmatch(e.Args[1]); m == nil || m[2] != "0" || !strings.Contains(e.Args[0], "peers["+m[1]+"].address") {
+								problems = append(problems, "an upstream is dialled at ("+e.Args[0]+", "+e.Args[1]+"), expected the peer's network and its resolved JoinHostPort(0)")
+							}
+						}
+						if strings.HasPrefix(e.Note, "ok:") {
+							dialed = append(dialed, strings.TrimPrefix(e.Note, "ok:"))
+						}
 					case e.What == "invoke net.Conn.Close":
 						closed[e.Args[0]] = true
 					case strings.HasSuffix(e.What, ".WriteTo"):
@@ -499,4 +518,45 @@ func pkgOf(t types.Type) *types.Package {
 // halfCloseExempt: wrappers that must not pass a half-close on, each with the reason.
 var halfCloseExempt = map[string]string{
 	"modules/l4tee.teeConn": "the branch of a tee shares the client's write side with the main chain, which may still be sending; only the main chain (nextConn) may half-close the client",
+}
+
+// c03Write: what the relay writes to the client goes through Connection.Write (and the wrappers' Write); it must
+// reach the socket unchanged.
+func c03Write(c *Ctx, r *Report, rule string) {
+	r.rule(rule, "Connection.Write (path evaluation): exactly one Write(p) on the underlying connection with the caller's buffer, whose (n, err) is returned unchanged", 1)
+	fnName := "layer4.(*Connection).Write"
+	fn := c.Fn(fnName)
+	if fn == nil {
+		r.bad(rule, fnName, "exists", "-", "function not found")
+		return
+	}
+	sc := &Scenario{Name: "write", Params: map[string]SV{"recv": symRef("cx", false), "p0": symSlice("p", 7)}, Heap: map[string]SV{"cx.Conn": symRef("sock", false)}}
+	sc.Call = func(callee string, args []SV, ev *symEval, st *symState) (SV, bool) {
+		if strings.HasPrefix(callee, "(*sync/atomic.") {
+			return symOpaque("atomic"), true
+		}
+		return SV{}, false
+	}
+	paths, err := evalPaths(fn, sc)
+	if err != nil || len(paths) == 0 {
+		r.bad(rule, fnName, "write through", c.pos(fn.Pos()), fmt.Sprintf("undecided: %v", err))
+		return
+	}
+	var problems []string
+	for _, p := range paths {
+		var writes []Event
+		for _, e := range p.Trace {
+			if e.Kind == "call" && e.What == "invoke net.Conn.Write" {
+				writes = append(writes, e)
+			}
+		}
+		if len(writes) != 1 || len(writes[0].Args) != 2 || writes[0].Args[0] != "sock" || writes[0].Args[1] != "p" {
+			problems = append(problems, "the bytes are not written once, unchanged, to the underlying connection: "+fmtTrace(p))
+			continue
+		}
+		if len(p.Ret) != 2 || !strings.HasPrefix(p.Ret[0].Desc, "invoke.Write#") || !strings.HasSuffix(p.Ret[0].Desc, ".0") || !strings.HasSuffix(p.Ret[1].Desc, ".1") {
+			problems = append(problems, "the result of the underlying write is not returned unchanged: ("+p.retDesc()+")")
+		}
+	}
+	r.check(len(problems) == 0, rule, fnName, "write through", c.pos(fn.Pos()), fmt.Sprintf("%d path(s)", len(paths)), strings.Join(dedup(problems), "; "))
 }
